@@ -168,6 +168,20 @@ chk("C07",
     "machine-checked proof in Coq (row-wise invariants of list plumbing) + selector extraction/exact re-derivation on real runs",
     "DESIGN.md section 6, C07")
 
+chk("C14",
+    "Coq theorems: for every clustering cadence, every sequence of warm-up/annealing iterations and every starting "
+    "iteration number (fresh or resumed with an unfitted model) prediction never meets an unfitted model; under "
+    "coverage (every label below K predicted for some training point) the kernel's mode for assignment a is the mode "
+    "fitted from the points labelled a; the number of modes never exceeds K; the pinned cadence and the rank/label "
+    "mismatch without coverage are refuted by computed witnesses. Tie: Gen.Cluster (refit test, per-unique-label mode "
+    "construction, assignment source, kernel indexing, dof fallback) + Link; hooks at the kernel entry of real runs "
+    "over cluster_every x caps x normalize x kernels (and after resume) checking assignments < K, finite means, "
+    "symmetric positive-definite scales, positive finite dof and coverage; Trainer/Resampler on starved weighted pools.",
+    "Trusted: Coq kernel; python extractor/harness; coverage is a monitored hypothesis (a violating pool is reported "
+    "with the pool as replay); cholesky success witnesses positive-definiteness.",
+    "machine-checked proof in Coq (schedule induction; list filtering) + cadence extraction/kernel-entry hooks",
+    "DESIGN.md section 6, C14")
+
 for pid in [f"C{i:02d}" for i in range(1, 21)]:
     if pid not in CHECKS:
         NA[pid] = "check not built yet in this session (planned in DESIGN.md section 6); not claimed"
